@@ -301,7 +301,8 @@ def gen_case(rng, want_mc=None):
             mc = {'port': p0['name'], 'claim': claim['name'], 'grant': [rng.choice(claim['_reply']['fields'])],
                   'release': release['name']}
             ports['psts'], ports['pmts'] = {'w': 'none'}, {'w': 'all'}
-    base = rng.choice(['Model', 'Toaster', 'x'])
+    # incl. file names that contain the names of generated members (Locator(), Runtime(), FinalConstruct(), Pump())
+    base = rng.choice(['Model', 'Toaster', 'x', 'Model', 'Toaster', 'ServiceLocator', 'RuntimePump', 'FinalConstruct'])
     cfg = {'filename': rng.choice(['', 'gen/', '/abs/dir/']) + base + rng.choice(['.dzn', '.json', '']),
            'suffix': rng.choice(['AdvShell', 'Adv', '_s']),
            'encapsulee': info['comp_fqn'], 'ports': ports, 'multiclient': mc,
@@ -570,6 +571,10 @@ def build_real(case, shared=None, fresh=None):
     session = shared is None and not fresh
     if session:
         with _SESSION_LOCK:
+            # what this process built through the session so far (for replays of history-dependent failures)
+            log = _SESSION.setdefault('log', [])
+            log.append({k: v for k, v in case.items() if not k.startswith('_')})
+            del log[:-40]
             return _build_real(case, cfg, shared, session)
     return _build_real(case, cfg, shared, session)
 
@@ -629,3 +634,16 @@ def _build_real(case, cfg, shared, session):
 def build_impl(case, shared=None, fresh=None):
     r = build_real(case, shared, fresh)
     return r[0] if isinstance(r, tuple) else r
+
+
+def session_history():
+    """the (up to 40) latest cases built through the process-wide session, oldest first"""
+    return list(_SESSION.get('log', []))
+
+
+def replay_session_history(cases):
+    for c in cases:
+        try:
+            build_impl(c, fresh=False)
+        except Exception:  # noqa
+            pass
